@@ -841,6 +841,33 @@ def rule_ID(run: Run) -> RuleResult:
     w = repo.functions.get("labrea.interface.interface")
     ok = w is not None and any(astu.short_name(c) == "Interface" and c.args and ast.unparse(c.args[-1]) == "dispatch" for c in astu.calls_in(w.node))
     res.add("labrea.interface.interface:passes its dispatch to Interface(...)", ok, f, w.node.lineno if w else 0, "", nec)
+    # a dispatch given as a string is an option key: it becomes Option(key) (interface decorator and dataset factory alike)
+    def str_dispatch(paths, get_term, label, relpath, line):
+        ok_, seen_, why_ = True, set(), ""
+        for p in paths:
+            if p.status != "ret":
+                continue
+            is_str = Frame.atoms(p.conds).get("call:isinstance(dispatch,name<str>)")
+            t = get_term(p)
+            if t is None or is_str is None:
+                continue
+            seen_.add(is_str)
+            if is_str and not (isinstance(t, New) and t.cls.name == "Option" and t.attrs.get("key") is not None and t.attrs["key"].key() == "dispatch"):
+                ok_, why_ = False, f"a string dispatch is used as {t.key()[:60]}"
+            if not is_str and t.key() != "dispatch":
+                ok_, why_ = False, f"a non-string dispatch becomes {t.key()[:60]}"
+        res.add(f"{label}:a string dispatch becomes Option(key)", ok_ and seen_ == {True, False}, relpath, line, why_ or "Option(dispatch) if isinstance(dispatch, str)", nec)
+    if w is not None:
+        str_dispatch(analyse_function(Ctx(repo), w.module, w.node), lambda p: (getattr(p.ret, "frame", None) or {}).get("dispatch") if isinstance(p.ret, Fn) else None,
+                     "labrea.interface.interface", f, w.node.lineno)
+    df = repo.cls("DatasetFactory")
+    dinit = df.methods.get("__init__")
+    if dinit is not None:
+        def stored(p):
+            st = [e for e in p.events if e.kind == "store" and len(e.args) == 2 and e.args[0].key() == "self" and e.args[1].key() == Const("dispatch").key()]
+            return st[-1].target if st else None
+        str_dispatch([p for p in analyse_function(Ctx(repo), df.module, dinit, cls=df) if Frame.atoms(p.conds).get("cmp:Is(dispatch,Const(None))") is False],
+                     stored, "labrea.dataset.DatasetFactory.__init__", df.module.relpath, dinit.lineno)
     return res
 
 
